@@ -103,6 +103,17 @@ Theorem c09_shared_lazy_refuted :
 Proof. exact shared_lazy_refuted. Qed.
 Print Assumptions c09_shared_lazy_refuted.
 
+(* the first two are data races in the relational sense as well (no lock operation orders the two accesses) *)
+Theorem c09_unlocked_cache_relational_race :
+  exists (progs : list (list op)) (sched : list nat), relational_race (run (fun u => u) sched (init false progs)).
+Proof. exact unlocked_cache_relational_race. Qed.
+Print Assumptions c09_unlocked_cache_relational_race.
+
+Theorem c09_shared_lazy_relational_race :
+  exists (progs : list (list op)) (sched : list nat), relational_race (run (fun u => u) sched (init true progs)).
+Proof. exact shared_lazy_relational_race. Qed.
+Print Assumptions c09_shared_lazy_relational_race.
+
 Theorem c09_def_write_refuted :
   exists (progs : list (list op)) (sched : list nat), g_races (run (fun u => u) sched (init true progs)) <> [].
 Proof. exact def_write_refuted. Qed.
